@@ -1,8 +1,8 @@
 -------------------------- MODULE MC_MessageParse --------------------------
 EXTENDS MessageParse
 AllTypes   == Types
-QuickMuts  == {"insf", "dup", "swap", "bad", "del"}
-AllMuts    == {"insf", "dup", "swap", "bad", "del", "own"}
+QuickMuts  == {"insf", "dup", "swap", "bad", "del", "letter"}
+AllMuts    == {"insf", "dup", "swap", "bad", "del", "letter", "own"}
 AllModes   == {"sparse", "full", "cap", "overcap"}
 BaseModes  == {"sparse", "full"}
 =============================================================================
